@@ -10,7 +10,10 @@
                       resolution fails),
             pre       pre-resolve listener: "none" | "pass" | "raise",
             listeners Seq of pre-handle listeners, each [b |-> "pass"] | [b |-> "handle", v |-> value] | [b |-> "raise", k |-> kind],
-            outcome   of the selected command's handler: [t |-> "ret", v |-> value] | [t |-> "raise", k |-> kind]]
+            outcome   of the selected command's handler: [t |-> "ret", v |-> value] | [t |-> "raise", k |-> kind],
+            scope     where in the handler the value is returned / the exception raised: "top" | "indent" (inside
+                      `with io.indent(2):`) | "increment" (`with io.increment_indent(2):`) | "output" (`with
+                      io.output.indent(2):`) - an indentation scope must not change what the run amounts to]
    Values and exception kinds are names; what the model needs to know about them is in the tables below.
 
    P-layer (from the statement; over env and the observation o = [status, escaped, calls, reported, shows] only):
@@ -40,16 +43,17 @@ ConvClass(v) == CASE v = "inf" -> "OverflowError" [] v = "list" -> "TypeError" [
 
 \* ------------------------------------------------------------------ tables: exception kinds
 \* Code*: exceptions carrying a `code` attribute that is no exit status: a method, None, a string, a float, an integer
-\* out of range.  TagCloseOpen / LibraryCloseOpen: the message closes a tag it did not open and leaves another one open.
+\* out of range.  TagFile: raised by code compiled under the file name "</error>".  TagCloseOpen / LibraryCloseOpen: the message closes a tag it did not open and leaves another one open.
 CodeKinds == {"WithCode", "CodeMethod", "CodeNone", "CodeString", "CodeFloat", "CodeBig"}
 Kinds == {"Foreign", "Library", "KeyboardInterrupt", "Chained", "TagOpen", "TagClose", "TagUnbalanced", "TagCloseOpen",
           "MultiLine", "NonAscii", "Backslash", "NoSource", "StrFails", "LibraryTagged", "LibraryBackslash",
-          "LibraryCloseOpen"} \cup CodeKinds
+          "LibraryCloseOpen", "TagFile"} \cup CodeKinds
+Scopes == {"top", "indent", "increment", "output"}
 IsInterrupt(k) == k = "KeyboardInterrupt"
 IsLibrary(k) == k \in {"Library", "LibraryTagged", "LibraryBackslash", "LibraryCloseOpen"}          \* CliKitException subclasses: simple report
 ClassOf(k) == CASE k = "KeyboardInterrupt" -> "KeyboardInterrupt" [] IsLibrary(k) -> "GenLibraryError"
                 [] k \in CodeKinds -> "WithCodeError" [] k = "StrFails" -> "StrFailsError"
-                [] k = "NoSource" -> "ValueError" [] OTHER -> "RuntimeError"
+                [] k \in {"NoSource", "TagFile"} -> "ValueError" [] OTHER -> "RuntimeError"
 
 \* ------------------------------------------------------------------ tables: command lines
 \* alpha <a> [--flag]   |   beta [--num N]  with sub-command  beta gamma <c>  (inherits --num)
